@@ -170,6 +170,28 @@ def str_literal_sets(prog, fnkey):
     return out
 
 
+def splitter_sets(prog, sp):
+    """Every character set the splitter (with its private helpers and closures) consults: [(members as a string, where)] —
+    `literal.contains(c)` tests, and char → bool predicate functions evaluated over ASCII, the curly quotes and the danda."""
+    from engine.analyses import PredEval
+    fns = [k for k in prog.reach([sp], foreign_trait_impls=False)]
+    out = []
+    pe = None
+    for k in sorted(fns):
+        out += str_literal_sets(prog, k)
+        b = prog.body(k)
+        for (bb, t) in b.calls():
+            n = callee_name(t)
+            f = prog.fns.get(n)
+            if f and f.get("inputs") == ["char"] and f.get("output") == "bool" and not f.get("impl"):
+                pe = pe or PredEval(prog)
+                dom = [chr(c) for c in range(0x20, 0x7f)] + list("‘’“”।॥") + ["ক", "া", "‌"]
+                cs = pe.char_set(n, dom)
+                if cs:
+                    out.append(("".join(sorted(cs)), bb))
+    return out
+
+
 def fn_line(prog, key):
     f = prog.fns[key]
     return {"file": f["loc"]["file"], "line": f["def_loc"]["line"], "function": key}
